@@ -31,7 +31,8 @@ func (rw *readWriter) Read(p []byte) (n int, err error) {
 	rw.m.Lock()
 	defer rw.m.Unlock()
 
-	if !rw.closed.Load() && rw.buf.Len() == 0 {
+	// An empty Write also signals: wait until there is data or the writer is done.
+	for !rw.closed.Load() && rw.buf.Len() == 0 {
 		rw.cv.Wait()
 	}
 
